@@ -255,7 +255,7 @@ class HistProp(BaseProp):
         return len(kinds) >= 2 and (0 in codes)
 
 
-register(HistProp(
+C01 = register(HistProp(
     "C01", "c01", 1500, 20000,
     "histories of 1-10 mutation calls (add_node/add_nodes/add_edge/add_edge_tuple/add_edges/add_edge_tuples/"
     "new_from_nodes_and_edges) over 4-5 integer names whose sort order differs from insertion order, weights "
@@ -263,3 +263,21 @@ register(HistProp(
     "outcome code, node list, edge multiset and all twelve private indexes (hook snapshot) are compared with the "
     "Coq model and with the spec layer; non-trivial = uses >=2 kinds of call and at least one call succeeds; "
     "distinct = distinct case text"))
+
+C01.manifest = {
+    "text": "Unbounded theorems (all specs, all histories, all names/weights, generic name type) about the spec-level "
+            "mutation ladder: error => graph unchanged, only the three error kinds, self-loop / missing-node / duplicate "
+            "policies sentence by sentence, source-first creation, either orientation when undirected, re-add keeps "
+            "position and replaces attributes, batch add applies exactly the prefix before the first failing edge, "
+            "never panics. The spec and the faithful twelve-field model are tied to the code by a per-call "
+            "correspondence (outcome, node list, edge multiset, all private indexes via the hook).",
+    "note": "Trusted: Coq kernel + vm_compute; harness/printers/diff; the refinement twelve-field-model -> spec is "
+            "validated per generated history (flag kind 5), its unbounded proof is in progress (DESIGN.md 6/C01). "
+            "Axioms: none (Closed under the global context).",
+    "technique": "Coq proof (induction over op lists) + differential correspondence vs vm_compute model",
+}
+
+# property modules tools/p_*.py register themselves on import
+import importlib  # noqa: E402
+for _f in sorted(glob.glob(os.path.join(os.path.dirname(os.path.abspath(__file__)), "p_*.py"))):
+    importlib.import_module(os.path.basename(_f)[:-3])
